@@ -66,6 +66,14 @@ def _bloomlike(ctx, cfg):
         obj = sym_bloom(ctx, cfg["est"], cfg["fpr"], hash_function=FIXED)
         cls = BloomFilter
     ch = cfg["channel"]
+    if cfg.get("second"):
+        # a SECOND export: every read-only export has been called once, then the content changed while the element counter is
+        # what it was (e.g. counting: remove + add; here, for every kind, an add followed by the documented counter setter) - what is exported now
+        # must be the current content on every channel (round 5: __bytes__ reused a payload remembered per counter value)
+        obj.__bytes__(), obj.export_hex(), env.export_bytes(ctx, obj)
+        n0 = obj.elements_added
+        obj.add_alt([0] * obj.number_hashes)
+        obj.elements_added = n0
     g, blob = _load(ctx, obj, ch, fs, lambda b: cls.frombytes(b, hash_function=FIXED), lambda p: cls(filepath=p, hash_function=FIXED),
                     lambda h: cls(hex_string=h, hash_function=FIXED))
     ctx.check(type(g) is cls, "same-class")
@@ -243,6 +251,9 @@ def jobs(tier):
     for est, fpr in [(1, .5), (1, .3), (2, .3)] + ([(3, .2)] if tier == "thorough" else []):
         for ch in CHANNELS:
             js.append({"h": "c05.roundtrip", "cfg": {"kind": "cbf", "est": est, "fpr": fpr, "channel": ch}, "opts": dict(o, cost=est)})
+    for kind, est, fpr in [("bloom", 3, .28), ("bloom", 3, .2), ("cbf", 1, .3), ("cbf", 2, .3)]:
+        for ch in CHANNELS:
+            js.append({"h": "c05.roundtrip", "cfg": {"kind": kind, "est": est, "fpr": fpr, "channel": ch, "second": True}, "opts": dict(o, cost=est)})
     for kind in ("exp", "rot"):
         for L in (1, 2, 3):
             for ch in CHANNELS[:4]:
